@@ -289,11 +289,36 @@ def run(ctx):
                 found=f"{ret[0]!r} (length {nonce_len})"[:200] if ok else repr(f["out"].value)[:200])
         tag_ok = ok and ret[1] == App("slice", (a, Const(-16), Const(None), Const(None)))
         ct_ok = ok and ret[2] == App("slice", (a, Const(None), Const(-16), Const(None)))
+        if ok and not (tag_ok and ct_ok):
+            # other spellings of the same split (an explicit offset len(resp) - 16, ...): decided by evaluating both terms on sample outputs
+            from sa.teval import teval as _tev, Unknown as _Unk
+            try:
+                tag_ok = ct_ok = True
+                for n_ in (16, 17, 31, 32, 33, 80):
+                    resp_ = bytes(range(n_))
+                    if bytes(_tev(ret[1], {a: resp_})) != resp_[-16:]:
+                        tag_ok = False
+                    if bytes(_tev(ret[2], {a: resp_})) != resp_[:-16]:
+                        ct_ok = False
+            except _Unk:
+                tag_ok = ct_ok = False
         R.check("C06-D3 split and emission order", tag_ok and ct_ok, f"{impl.name}.encrypt splits AES-GCM output into ciphertext | 16-byte tag",
                 mod=fi.module, node=fi.node, function=ctx.fq(fi), expected="tag = resp[-16:], ciphertext = resp[:-16]",
                 found=f"tag {ret[1]!r}; ct {ret[2]!r}"[:300] if ok else "?")
     sl = lambda lo, hi: App("slice", (asset, Const(lo), Const(hi), Const(None)))
-    R.check("C06-D3 split and emission order", iv_term == sl(None, 12) and ret_tag == sl(12, 28) and ret_content == sl(28, None),
+    bounds_ok = iv_term == sl(None, 12) and ret_tag == sl(12, 28) and ret_content == sl(28, None)
+    if not bounds_ok and iv_term is not None and ret_tag is not None and ret_content is not None:
+        from sa.teval import teval as _tev, Unknown as _Unk
+        try:
+            bounds_ok = True
+            for n_ in (0, 5, 12, 13, 27, 28, 29, 44, 100):
+                blob_ = bytes(range(n_))
+                env_ = {asset: blob_}
+                if (bytes(_tev(iv_term, env_)), bytes(_tev(ret_tag, env_)), bytes(_tev(ret_content, env_))) != (blob_[:12], blob_[12:28], blob_[28:]):
+                    bounds_ok = False
+        except _Unk:
+            bounds_ok = False
+    R.check("C06-D3 split and emission order", bounds_ok,
             "parse boundaries 12 / 28 coincide with nonce(12) | tag(16) | ciphertext and the IV published is bytes [0,12)",
             mod=fi_info.module, node=fi_info.node, function=fq_info, expected="iv = asset[:12], tag = asset[12:28], content = asset[28:]",
             found=f"iv {iv_term!r}; tag {ret_tag!r}; content {ret_content!r}"[:300])
